@@ -183,6 +183,23 @@ def campaign(c):
                         c.violation('det:cwd', 'the same command line prints something else when started from another directory: %r vs %r'
                                     % (seen[0][1][-160:].decode('utf-8', 'replace').replace(d, '<T>'), seen[k][1][-160:].decode('utf-8', 'replace').replace(d, '<T>')), dict(rep, cwd=cwds[k].replace(d, '<T>'), args=[a.replace(d, '<T>') for a in argv[1:]]))
                 c.count('cwd-variants')
+                # ... and under every console option, from different environments (variables that programs commonly consult for
+                # colour, terminal type, locale, logging): an explicit option is never overridden by the environment
+                ENV2 = [dict(), dict(NO_COLOR='1'), dict(CLICOLOR_FORCE='1', CLICOLOR='0', FORCE_COLOR='3'), dict(TERM='dumb'), dict(TERM='xterm-256color', COLORTERM='truecolor', NO_COLOR=''),
+                        dict(RUST_BACKTRACE='1', RUST_LOG='trace', LANG='tr_TR.UTF-8', LC_ALL='tr_TR.UTF-8', COLUMNS='7', LINES='1')]
+                for flags in (['--color', 'always'], ['--color', 'ansi'], ['--color', 'never'], ['--color', 'auto'], ['-v'], ['-v', '--color', 'always'], ['-k', '--color', 'ansi']):
+                    argv = [core.CLI] + flags + ['-o', os.path.join(d, 'out', 'y.pcap'), ip_]
+                    seen = []
+                    for e2 in ENV2:
+                        pr = subprocess.run(argv, capture_output=True, cwd=d, env=dict(PATH='/usr/bin:/bin', **e2), timeout=120)
+                        f2 = os.path.join(d, 'out', 'y.pcap')
+                        seen.append((pr.returncode, pr.stdout, open(f2, 'rb').read() if os.path.exists(f2) else None))
+                        if os.path.exists(f2): os.remove(f2)
+                    if len(set(seen)) != 1:
+                        k = [x != seen[0] for x in seen].index(True)
+                        c.violation('det:env-option', 'with %s the result depends on the environment (%s): %r vs %r' % (' '.join(flags), ENV2[k], seen[0][1][-120:].decode('utf-8', 'replace').replace(d, '<T>'), seen[k][1][-120:].decode('utf-8', 'replace').replace(d, '<T>')),
+                                    dict(rep, flags=flags, env=ENV2[k]))
+                c.count('env-option-variants')
             finally:
                 shutil.rmtree(d, ignore_errors=True)
         # text-level variants
